@@ -21,7 +21,7 @@ def run(tier, seed, only=None):
     if tier == "thorough":
         cfgs += [("symL_2x3", 2, 3, False), ("symR_2x2", 2, 2, True), ("symL_3x2", 3, 2, False), ("symL_4x4", 4, 4, False), ("symR_4x3", 4, 3, True), ("symL_2x6", 2, 6, False)]
     for (cn, nx, ny, right) in cfgs:
-        s = K.surface(nx, ny, True, right=right, groundplane=True)
+        s = K.surface(nx, ny, np.True_ if right else True, right=right, groundplane=np.True_ if nx == 3 else True)
         P = pipe.vlm_states([s])
         P.encode(rep)
         m = symarray("wing_def_mesh", (nx, ny, 3))
